@@ -20,7 +20,8 @@ from checks.c05 import NAMES  # noqa: E402
 
 def shard_args(tier, seed):
     n = BUDGET[tier] // NSHARDS
-    return [{"n": n, "seed": seed * 1000 + i} for i in range(NSHARDS)]
+    # odd shards touch the path configurations in reverse order first (they are loaded lazily, on first use)
+    return [{"n": n, "seed": seed * 1000 + i, "reverse_load_order": bool(i % 2)} for i in range(NSHARDS)]
 
 
 def floors(m, tier):
@@ -29,11 +30,31 @@ def floors(m, tier):
             "typed results": (c.get("typed", 0), BUDGET[tier] // 20),
             "R8 non-conforming mutants": (c.get("r8_nonconforming", 0), BUDGET[tier] // 4),
             "desynchronised duplicate mutants": (c.get("mut:desync", 0), BUDGET[tier] // 40),
-            "root switched": (c.get("mut:switch_root", 0), BUDGET[tier] // 60)}
+            "root switched": (c.get("mut:switch_root", 0), BUDGET[tier] // 60),
+            "shards that used the configurations in reverse order first": (c.get("reverse_load_order_shards", 0), 1)}
+
+
+def order_check(m, results):
+    """R8 reads the live templates: what it reads must not depend on which configuration a process used first."""
+    digests = sorted(k for k in m.counters if k.startswith("tpl_digest:"))
+    m.counters["template_digests_compared"] = sum(m.counters[k] for k in digests)
+    if len(digests) > 1:
+        m.unlisted_n += 1
+        m.unlisted.append({"property": "C06", "kind": "path_templates_depend_on_which_configuration_was_used_first",
+                           "case": {"order_check": True}, "detail": "template digests seen by the shards: %s" % digests})
+    return None
 
 
 def run(snap, tier, seed, t0, replay):
-    return driver.simple_run("C06", snap, tier, seed, t0, replay, LEVEL, RULE, ASSUME, shard_args, floors_fn=floors)
+    if replay is not None and replay.get("case", replay).get("order_check"):
+        from lib import harness
+        from lib.workers import run_shards
+        res = run_shards(snap, "c06", [{"n": 10, "seed": 0, "reverse_load_order": False}, {"n": 10, "seed": 0, "reverse_load_order": True}])
+        m = harness.merge(res)
+        order_check(m, res)
+        print("REPLAY C06: violations=%d" % m.unlisted_n)
+        return harness.finish("C06", tier, seed, LEVEL, m, RULE, t0, ASSUME, replay_mode=True)
+    return driver.simple_run("C06", snap, tier, seed, t0, replay, LEVEL, RULE, ASSUME, shard_args, floors_fn=floors, extra_cov_fn=order_check)
 
 
 def mutate_path(rng, p, pm, other_pm, tpl, vals, vocab_vals):
@@ -155,7 +176,13 @@ def worker(args):
     vocab = gen.Vocab(model)
     rng = random.Random(args.get("seed", 0))
     configs = list(conf.path_configs)
+    if args.get("reverse_load_order"):
+        for c in reversed(configs):
+            Sid(path="/nowhere", config=c)
+        rec.count("reverse_load_order_shards")
     pms = {c: PathModel(c) for c in configs}
+    import hashlib
+    rec.count("tpl_digest:" + hashlib.sha1(repr(sorted((c, sorted((k, t.tpl) for k, t in pm.templates.items())) for c, pm in pms.items())).encode()).hexdigest()[:12])
     if "replay" in args:
         c = args["replay"]
         rec.ev()
